@@ -47,6 +47,9 @@ def Form.parse (b : Backend) : Form → Bytes → Res Bytes
   | .id k, s => parseKeyId (Extracted.paserkHeader b) (Extracted.idHeader k) s
   | f, s => parseSimple (f.h1 b) (f.h2 b) s
 
+/-- `Display` of the PASERK forms (tokens are shown by `showToken`) -/
+def Form.show (b : Backend) (f : Form) (d : Bytes) : Bytes := showSimple (f.h1 b) (f.h2 b) d
+
 /-- parse then show for the PASERK forms: the shown string and the decoded data -/
 def txtRt (b : Backend) (f : Form) (s : Bytes) : Res (Bytes × Bytes) :=
   (f.parse b s).map (fun d => (showSimple (f.h1 b) (f.h2 b) d, d))
